@@ -145,3 +145,15 @@ Definition fcase_prop_ok (c : fcase) : bool :=
           end
     | GConnect => true      (* site credentials on the CONNECT head sent to an upstream proxy: observed, not claimed *)
     end) (f_msgs c).
+
+(* ---- hop-by-hop removal through the real modifier (verifhook/mheader re-export) ---- *)
+Record kcase := { k_in : hmap; k_out : hmap }.
+Definition kcase_model_ok (c : kcase) : bool := hmap_eqb (remove_hop_by_hop (k_in c)) (k_out c).
+(* oracle: no Proxy-Authorization and no Connection field is left, nothing the client nominated is
+   left, and Authorization is still there (unchanged) unless the client nominated it *)
+Definition absent (k : str) (h : hmap) : bool := match raw_get k h with None => true | Some _ => false end.
+Definition kcase_prop_ok (c : kcase) : bool :=
+  absent proxy_authorization (k_out c) && absent (b "Connection") (k_out c) &&
+  forallb (fun k => absent k (k_out c)) (connection_nominated (k_in c)) &&
+  (existsb (str_eqb authorization) (connection_nominated (k_in c)) ||
+   opt_vals_eqb (raw_get authorization (k_in c)) (raw_get authorization (k_out c))).
